@@ -238,7 +238,7 @@ func VerifH_C10_fmp4() {
 			ns := 1 + verifChoice("nsamples", verifParam("MAXSAMPLES", 2))
 			cur := int64(baseV)
 			for k := 0; k < ns; k++ {
-				dur := uint32(verifRangeI64("vdur", 0, 1<<20))
+				dur := uint32(verifRangeI64("vdur", 0, int64(1)<<uint(verifParam("VDURBITS", 20))))
 				off := int32(verifRangeI64("vptsoff", -(1 << 16), 1<<16))
 				pl, unit := verifVideoSample(vc, tag)
 				vt.Samples = append(vt.Samples, &fmp4.PartSample{Duration: dur, PTSOffset: off, Payload: pl, IsNonSyncSample: k > 0})
@@ -250,7 +250,7 @@ func VerifH_C10_fmp4() {
 			p.Tracks = append(p.Tracks, vt)
 			if withAudio {
 				at := &fmp4.PartTrack{ID: 2, BaseTime: baseA}
-				adur := uint32(verifRangeI64("adur", 0, 1<<16))
+				adur := uint32(verifRangeI64("adur", 0, int64(1)<<uint(verifParam("ADURBITS", 16))))
 				at.Samples = append(at.Samples, &fmp4.PartSample{Duration: adur, Payload: []byte{0xA0, tag}})
 				o := multiplyAndDivide(origin, int64(rateA), int64(rateV))
 				want = append(want, exp{track: 1, dts: int64(baseA) - o, pts: int64(baseA) - o, payload: []byte{0xA0, tag}, seg: s, segFirst: segFirst})
@@ -307,7 +307,10 @@ func VerifH_C10_fmp4() {
 			if dtl[e.seg] != nil {
 				// AbsoluteTime = PROGRAM-DATE-TIME of the unit's segment + offset from that segment's first leading unit
 				wantAbs := dtl[e.seg].Add(timestampToDuration(e.dts, rate) - timestampToDuration(e.segFirst, rateV))
-				verifAssert("C10", "absolute-time", g.ntp != nil && verifAbsDur(g.ntp.Sub(wantAbs)) <= 2*time.Microsecond)
+				// timestamps are integers in the track's clock: the client converts the segment's anchor into that clock
+				// (truncating), so agreement is required up to one tick of the track's clock (+2 us of ns rounding)
+				tick := time.Second/time.Duration(rate) + 2*time.Microsecond
+				verifAssert("C10", "absolute-time", g.ntp != nil && verifAbsDur(g.ntp.Sub(wantAbs)) <= tick)
 			}
 		}
 		verifAssert("C10", "nothing-invented-or-negative", gi == len(got))
